@@ -22,7 +22,8 @@ WORKERS = 6
 PROBE_DIR = os.path.join(core.V, "progs", "c15_probe")
 PROBE_COMPILE_DIR = os.path.join(core.V, "progs", "c15_probe_compile")
 PROBE_LINK_DIR = os.path.join(core.V, "progs", "c15_probe_link")
-BUILD_PROBES = {"probe_compile": (PROBE_COMPILE_DIR, "C15-embedded-generic-compile"), "probe_link": (PROBE_LINK_DIR, "C15-alias-struct-methods-link")}
+BUILD_PROBES = {"probe_compile": (PROBE_COMPILE_DIR, "C15-embedded-generic-compile"), "probe_link": (PROBE_LINK_DIR, "C15-alias-struct-methods-link"),
+                "probe_link2": (os.path.join(core.V, "progs", "c15_probe_link2"), "C15-alias-generic-link")}
 
 # probe unit -> finding id (units not listed are controls: they must agree with go)
 PROBE_MAP = {
@@ -38,7 +39,7 @@ PROBE_MAP = {
     "meth-map-addr": "C15-method-direct-addressable", "meth-chan-addr": "C15-method-direct-addressable", "meth-oneptr-addr": "C15-method-direct-addressable",
     "bigelem-map": "C15-map-indirect-slot-size",
     "methorder": "C15-method-order-pkgpath", "meth-map-mixed": "C15-method-order-pkgpath", "meth-struct-mixed": "C15-method-order-pkgpath",
-    "convf32": "C15-convert-float32", "emptystr": "C15-empty-string-to-slice",
+    "convf32": "C15-convert-float32", "emptystr": "C15-empty-string-to-slice", "typearg": "C15-typearg-struct-string",
 }
 
 open_ids = [f["id"] for f in chk.open_findings()]
